@@ -7,13 +7,11 @@ import threading
 
 sys.path.insert(0, os.path.dirname(os.path.abspath(__file__)))
 
-# Transparent huge pages make copy-on-write faults in the forked workers copy 2 MB at a time (measured: half of the
-# CPU time went to the kernel); switch them off for this process tree before anything large is allocated.
-try:
-    import ctypes
-    ctypes.CDLL(None).prctl(41, 1, 0, 0, 0)          # PR_SET_THP_DISABLE
-except Exception:
-    pass
+# CPython 3.11 mmaps/munmaps a 16 KiB frame-stack chunk every time the call depth crosses a chunk boundary; mirsym does
+# that ~300k times per compilation, and in this sandbox the resulting page faults serialise across processes (measured:
+# 16 workers ran no faster than 2).  mirsym/fastalloc.py installs an arena allocator that keeps those chunks.
+from mirsym import fastalloc
+fastalloc.install()
 
 
 def main():
